@@ -148,6 +148,8 @@ struct ShimRunInfo {
     void PFX##post_case(void*);                                                                                        \
     void PFX##pseudo_set(void*, int word, uint16_t value);                                                             \
     uint16_t PFX##pseudo_get(void*, int word);                                                                         \
+    void PFX##regs_get(const void* register_state, flat::State*);                                                      \
+    void PFX##regs_set(void* register_state, const flat::State*);                                                      \
     }
 
 SHIM_API(sut_)
